@@ -265,7 +265,7 @@ func engineC43(c *vctx) error {
 		}
 		env := fmt.Sprintf("(C43m.mkEnv %s %d %s %s %s)", coqList(good), packSize, coqList(lf),
 			coqOpt(hasFB, coqList(fbLabels)), coqOpt(cbFail >= 0, fmt.Sprintf("%d%%nat", cbFail)))
-		term := fmt.Sprintf("C43m.mkCase %s %s %s %s %s", env, coqList(reqT), coqList(loads), coqList(cbs), res)
+		term := fmt.Sprintf("C43m.CS (C43m.mkCase %s %s %s %s %s)", env, coqList(reqT), coqList(loads), coqList(cbs), res)
 		c.Hist(fmt.Sprintf("loads=%d", min(len(loads), 6)))
 		c.Hist("res=" + strings.TrimPrefix(res, "C43m."))
 		c.Case(kind, len(reqs) >= 2 && len(cbs) >= 1, len(reqs), term,
@@ -292,6 +292,13 @@ func engineC43(c *vctx) error {
 	for r := 0; r < rounds; r++ {
 		rng := c.rng.fork()
 		run(rng, "huge-blob", 1+rng.intn(4), 0, true)
+	}
+	rounds = c.n(6, 40)
+	for r := 0; r < rounds; r++ {
+		rng := c.rng.fork()
+		if err := c43Repo(c, rng, r); err != nil {
+			return err
+		}
 	}
 	return nil
 }
